@@ -326,6 +326,10 @@ def _diff_calls():
         "roll_m1": lambda x: sparse.roll(x, -1, axis=0),
         "roll_big": lambda x: sparse.roll(x, -200, axis=-1),
         "roll_flat": lambda x: sparse.roll(x, 3),
+        "roll_turn": lambda x: sparse.roll(x, x.shape[0], axis=0),
+        "roll_turn2": lambda x: sparse.roll(x, 2 * x.shape[-1] + 1, axis=-1),
+        "roll_tuple_turn": lambda x: sparse.roll(x, (x.shape[0] + 1, 2 * x.shape[-1]), axis=(0, x.ndim - 1)) if x.ndim > 1
+        else sparse.roll(x, (x.shape[0] + 1,), axis=(0,)),
         "pad_1": lambda x: sparse.pad(x, 1),
         "pad_big": lambda x: sparse.pad(x, 200),
         "triu_0": lambda x: sparse.triu(x),
@@ -499,6 +503,24 @@ def gen_op_cases(tier, rng):
             cases.append(dict(kind="getitem", t=t, shape=[m, n], coords=cs, axis=1, sl=[None, None, rng.choice([-1, 2, -2])]))
             cases.append(dict(kind="rollt", t=t, shape=[m, n], coords=cs, axes=[0, 1],
                               shifts=[rng.choice([1, -1, 2]), rng.choice([1, -1, n, thi(t) - n, thi(t) - n + 1, -200, 100])]))
+        # ---- roll by at least one whole turn: positive shifts >= the axis length that (alone) still fit the
+        #      dtype, stored elements at the top of the axis, 2^bits not a multiple of n — a guard that only
+        #      looks at the reduced shift would let coords + shift wrap silently (e.g. int8, n=50, shift=100:
+        #      49 -> 149 -> -107 -> 43)
+        if tbits(t)[0] <= 16 or tier != "quick":
+            hi = thi(t)
+            for n in [x for x in (3, 7, 30, 50, 100, 1000, 30000) if 2 * x <= hi][:4 if tier == "quick" else 7]:
+                top = sorted({0, 1 % n, n // 2, n - 2, n - 1})
+                shifts = sorted({n, n + 1, 2 * n, 2 * n + 1, hi - n, hi - n + 1, hi - 1, hi, (hi // n) * n, hi - (n - 1)})
+                shifts = [sh for sh in shifts if 0 < sh <= hi]
+                for sh in (shifts if tier != "quick" else rng.sample(shifts, min(5, len(shifts)))):
+                    cases.append(dict(kind="roll", t=t, shape=[n], coords=[[c] for c in top], axis=0, shift=sh))
+                m = rng.choice([3, 5])
+                cs2 = sorted([r, c] for r in sorted({0, m - 1}) for c in top)
+                for sh in rng.sample(shifts, min(3, len(shifts))):
+                    cases.append(dict(kind="rollt", t=t, shape=[m, n], coords=cs2, axes=[0, 1],
+                                      shifts=[rng.choice([1, m, m + 1, 2 * m]), sh]))
+                    cases.append(dict(kind="roll", t=t, shape=[m, n], coords=cs2, axis=1, shift=sh))
         # ---- reshape: growing an extent past the limit
         for _ in range(3 * reps):
             a, b = rng.choice([2, 3, 4, 10]), rng.choice(exts)
